@@ -14,191 +14,9 @@
   fails (no exit candidate known).  Python containers: `dict` = association list in insertion order with in-place
   update, `deque(maxlen=cap)` = list that drops from the left when full.
 -/
-import Ipv8.C07.GenTunnel
+import Ipv8.C07.GenSend
 
 namespace Ipv8.C07
-
-/-- the tunnel community as `TunnelEndpoint.send` sees it -/
-structure Community where
-  circuits : List Circuit      -- `self.circuits` (dict: insertion order, unique ids)
-  nextId : Nat                 -- next circuit id handed out by create_circuit (ids are opaque tokens)
-  canCreate : Bool             -- whether create_circuit finds a first hop / exit candidate
-  failAfter : Option Nat       -- fault injection: how many more `send_cell` calls succeed before one raises
-deriving Repr, DecidableEq
-
-/-- an endpoint listener registered with the wrapped endpoint: id and its `anonymize` attribute (if it has one) -/
-structure Listener where
-  lid : Nat
-  anonymize : Option Bool
-deriving Repr, DecidableEq
-
-structure State where
-  cap : Nat                          -- `send_queue.maxlen`
-  settings : List (Bytes × Bool)     -- `self.settings`
-  queue : List (Addr × Bytes)        -- `self.send_queue`, oldest first
-  hops : Nat                         -- `self.hops`
-  attached : Bool                    -- `self.tunnel_community is not None`
-  comm : Community                   -- the tunnel community object (it outlives detaching)
-  listeners : List Listener          -- `self.endpoint._listeners` (global listeners, `add_listener`)
-  plisteners : List (Bytes × Listener)  -- listeners registered by prefix (`add_prefix_listener`: every Community)
-  nextOverlay : Nat                  -- overlays loaded so far (their listener ids are 1000, 1001, …)
-deriving Repr, DecidableEq
-
-/-- what the outside can observe of one call -/
-inductive Event
-  /-- `self.endpoint.send(address, packet)`: the packet leaves through the node's own socket -/
-  | raw (a : Addr) (p : Bytes)
-  /-- `tunnel_community.send_data(circuit.hop.address, circuit_id, address, ("0.0.0.0", 0), packet)` -/
-  | data (cid : Nat) (target : Option Addr) (dest : Addr) (p : Bytes)
-  /-- `tunnel_community.create_circuit(hops, exit_flags=…)`; `made` is the id of the circuit it registered -/
-  | create (hops : Nat) (flags : Option (List Nat)) (made : Option Nat)
-  /-- ghost event: the packet is gone without having been handed to anybody (no community / queue overflow) -/
-  | drop (overflow : Bool) (a : Addr) (p : Bytes)
-  /-- ghost event: `send_data` raised for this packet; the exception propagates to the caller of `send`, the packet
-      (already taken off the queue, if it came from there) is gone -/
-  | fail (a : Addr) (p : Bytes)
-  /-- `listener.on_packet` via `_deliver_later` -/
-  | deliver (lid : Nat)
-deriving Repr, DecidableEq
-
-inductive Op
-  | send (a : Addr) (p : Bytes)
-  | setAnonymity (pfx : Bytes) (enable : Bool)
-  | setTunnelCommunity (attach : Bool) (hops : Nat)
-  /-- Community.__init__ of an overlay with the given community id and `settings.anonymize` -/
-  | overlay (cid : Bytes) (anonymize : Bool)
-  /-- Community.__init__ of an overlay whose `settings.endpoint` is NOT a TunnelEndpoint although its sends end up in
-      `TunnelEndpoint.send` (a decorator such as StatisticsEndpoint sits in front): the `isinstance` guard fails, only a
-      warning is logged; the overlay still registers as a listener (decorators forward `add_prefix_listener`) -/
-  | overlayForeign (cid : Bytes) (anonymize : Bool)
-  | newCircuit (goalHops : Nat) (ctype : CType)
-  | addHop (idx : Nat) (h : Hop)
-  | close (idx : Nat)
-  | remove (idx : Nat)
-  | setCanCreate (b : Bool)
-  /-- environment: the (k+1)-th `send_cell` from now raises (serializer / crypto error), once -/
-  | setFail (k : Option Nat)
-  /-- `TunnelCommunity.__init__` on this endpoint: `set_tunnel_community(self)` (default hops) and
-      `set_anonymity(self._prefix, False)` for the tunnel community's own prefix -/
-  | attachCommunity (pfx : Bytes)
-  /-- `TunnelCommunity.remove_circuit(circuit_id, …)` up to its `await sleep(remove_tunnel_delay)`: the destroy is sent
-      and `Circuit.close()` marks the circuit CLOSING at once (this is also what `on_destroy` and `do_remove` trigger) -/
-  | removeRequest (cid : Nat)
-  /-- … and what it does after the delay: `self.circuits.pop(circuit_id, None)` -/
-  | removeDone (cid : Nat)
-  | addListener (l : Listener)
-  /-- `TunnelEndpoint.notify_listeners((origin, p), from_tunnel)` -/
-  | notify (fromTunnel : Bool) (p : Bytes)
-  /-- `Community.unload` of the overlay with that listener id: `remove_listener` (forwarded to the wrapped endpoint) -/
-  | unloadOverlay (lid : Nat)
-deriving Repr, DecidableEq
-
-/-! ### Python containers -/
-
-/-- `dict.get(k)` -/
-def dictGet (d : List (Bytes × Bool)) (k : Bytes) : Option Bool :=
-  match d with
-  | [] => none
-  | (k', v) :: rest => if k' = k then some v else dictGet rest k
-
-/-- `d[k] = v` (in place when present, appended otherwise) -/
-def dictSet (d : List (Bytes × Bool)) (k : Bytes) (v : Bool) : List (Bytes × Bool) :=
-  match d with
-  | [] => [(k, v)]
-  | (k', v') :: rest => if k' = k then (k, v) :: rest else (k', v') :: dictSet rest k v
-
-/-- `deque(maxlen=cap).append(x)`: returns the new contents and what fell out on the left -/
-def dequeAppend (cap : Nat) (q : List (Addr × Bytes)) (x : Addr × Bytes) :
-    List (Addr × Bytes) × List (Addr × Bytes) :=
-  let all := q ++ [x]
-  (all.drop (all.length - cap), all.take (all.length - cap))
-
-/-- replace the `idx`-th element -/
-def modifyAt (f : Circuit → Circuit) : List Circuit → Nat → List Circuit
-  | [], _ => []
-  | c :: cs, 0 => f c :: cs
-  | c :: cs, n + 1 => c :: modifyAt f cs n
-
-/-- `Circuit.close()` on the circuit registered under `cid` -/
-def closeById (cid : Nat) (cs : List Circuit) : List Circuit :=
-  cs.map (fun c => if c.cid = cid then { c with closing := true } else c)
-
-/-- `self.circuits.pop(cid, None)` -/
-def popById (cid : Nat) (cs : List Circuit) : List Circuit :=
-  cs.filter (fun c => c.cid ≠ cid)
-
-/-! ### the tunnel community -/
-
-/-- `find_circuits(...)` as called by `send` -/
-def Community.find (cm : Community) (hops : Nat) : List Circuit :=
-  cm.circuits.filter (sendFind hops)
-
-/-- `create_circuit(goal_hops, exit_flags=…)`: registers an EXTENDING circuit without verified hops, or returns None -/
-def Community.create (cm : Community) (goalHops : Nat) (ctype : CType) : Community × Option Nat :=
-  if cm.canCreate then
-    ({ cm with circuits := cm.circuits ++ [{ cid := cm.nextId, goalHops := goalHops, ctype := ctype,
-                                               closing := false, hops := [] }],
-               nextId := cm.nextId + 1 }, some cm.nextId)
-  else (cm, none)
-
-/-! ### TunnelEndpoint -/
-
-def init (cap : Nat) : State :=
-  { cap := cap, settings := [], queue := [], hops := initHops, attached := false,
-    comm := { circuits := [], nextId := 1, canCreate := true, failAfter := none }, listeners := [],
-    plisteners := [], nextOverlay := 0 }
-
-/-- `self.settings.get(packet[:22], False)` -/
-def State.anonymized (s : State) (p : Bytes) : Bool :=
-  (dictGet s.settings (p.take prefixLen)).getD false
-
-/-- one `send_data` call over circuit `c` -/
-def dataEv (c : Circuit) (x : Addr × Bytes) : Event :=
-  .data c.cid (c.firstHop?.map (·.addr)) x.1 x.2
-
-/-- the circuit `send` uses: the first READY one among those `find_circuits` returns
-    (`next((c for c in circuits if c.state == CIRCUIT_STATE_READY), None)`) -/
-def Community.pick (cm : Community) (hops : Nat) : Option Circuit :=
-  (cm.find hops).find? (fun c => c.state == .ready)
-
-/-- how many of `n` consecutive `send_data` calls succeed -/
-def okCalls (f : Option Nat) (n : Nat) : Nat :=
-  match f with
-  | none => n
-  | some k => min k n
-
-/-- the fault counter after `n` attempted calls (it fires at most once) -/
-def nextFail (f : Option Nat) (n : Nat) : Option Nat :=
-  match f with
-  | none => none
-  | some k => if k < n then none else some (k - n)
-
-/-- the READY branch of `send`: the new packet first, then the backlog, oldest first (`popleft` before each call), all
-    over circuit `c`; a `send_data` that raises ends the method: what was popped for it is gone, the rest stays queued -/
-def sendOver (s : State) (c : Circuit) (a : Addr) (p : Bytes) : State × List Event :=
-  let all := (a, p) :: s.queue
-  let n := okCalls s.comm.failAfter all.length
-  ({ s with queue := all.drop (n + 1), comm := { s.comm with failAfter := nextFail s.comm.failAfter all.length } },
-   (all.take n).map (dataEv c) ++ (match all[n]? with | some x => [.fail x.1 x.2] | none => []))
-
-/-- `TunnelEndpoint.send` -/
-def send (s : State) (a : Addr) (p : Bytes) : State × List Event :=
-  if !s.anonymized p then
-    (s, [.raw a p])                                             -- self.endpoint.send(address, packet); return
-  else if !s.attached then
-    (s, [.drop false a p])                                      -- tunnel_community is None: falls off the end
-  else
-    match s.comm.pick s.hops with
-    | none =>
-      if (s.comm.find s.hops).isEmpty then                      -- `if not circuits:` recreate tunnel when needed
-        let (cm, made) := s.comm.create (sendCreateHops s.hops) sendCreateCtype
-        let (q, lost) := dequeAppend s.cap s.queue (a, p)
-        ({ s with comm := cm, queue := q },
-         .create (sendCreateHops s.hops) sendCreateFlags made :: lost.map (fun x => .drop true x.1 x.2))
-      else
-        let (q, lost) := dequeAppend s.cap s.queue (a, p)
-        ({ s with queue := q }, lost.map (fun x => .drop true x.1 x.2))
-    | some c => sendOver s c a p
 
 /-- keep the first occurrence of every listener (a listener is offered a packet once) -/
 def dedupL : List Listener → List Listener
